@@ -527,3 +527,95 @@ def _(u):
     u.prove("check.sound.instance-window-nonempty", td["time_windows"].at(b, j, 0) < td["time_windows"].at(b, j, 1), tags=("C06",))
     u.prove("check.sound.instance-return-in-time", td["time_windows"].at(b, j, 0) + d0 + td["durations"].at(b, j) <= td["time_windows"].at(b, 0, 1), tags=("C06",))
     u.canary("check.sound.start-strictly-before-deadline", start(b, t) < td["time_windows"].at(b, act.at(b, t), 1))
+
+
+# ---------------------------------------------------------------------------------------------
+# MTVRP: customers exactly once; per route: length within the limit (open routes do not count the return leg),
+# service starts inside the windows, linehaul and backhaul loads within capacity
+# ---------------------------------------------------------------------------------------------
+MTV = "rl4co/envs/routing/mtvrp/env.py"
+
+
+def _mtvrp_ghost(u, td, act, B, N, T):
+    start = z3.Function("mt_start_def", z3.IntSort(), z3.IntSort(), z3.RealSort())
+    leave = z3.Function("mt_leave_def", z3.IntSort(), z3.IntSort(), z3.RealSort())
+    rlen = z3.Function("mt_route_len_def", z3.IntSort(), z3.IntSort(), z3.RealSort())     # length of the current route after step t (before the depot reset)
+    rlen0 = z3.Function("mt_route_len_carried", z3.IntSort(), z3.IntSort(), z3.RealSort())  # carried into step t (0 after a depot visit)
+    locs, tw, dur = td["locs"], td["time_windows"], td["service_time"]
+    prev = lambda b, t: ite(zint(t) == 0, 0, act.at(b, zint(t) - 1))
+    dist = lambda b, p, q: ops.NORM2(locs.at(b, p, 0) - locs.at(b, q, 0), locs.at(b, p, 1) - locs.at(b, q, 1))
+
+    def unfold(b, t):
+        a = act.at(b, t)
+        d = dist(b, prev(b, t), a)
+        arr = leave(b, zint(t)) + d
+        st = ite(arr >= tw.at(b, a, 0), arr, tw.at(b, a, 0))
+        counted = ite(AND(td["open_route"].at(b, 0), a == 0), zreal(0), d)      # an open route does not pay the way back to the depot
+        return AND(start(b, zint(t)) == st, leave(b, zint(t) + 1) == ite(a == 0, zreal(0), st + dur.at(b, a)),
+                   rlen(b, zint(t)) == rlen0(b, zint(t)) + counted, rlen0(b, zint(t) + 1) == ite(a == 0, zreal(0), rlen(b, zint(t))))
+
+    base = u.forall((B,), lambda b: AND(leave(b, 0) == 0, rlen0(b, 0) == 0))
+    if u.mode == "conc":
+        base = AND(base, u.forall((B, T), lambda b, t: unfold(b, t)))
+    return start, leave, rlen, rlen0, unfold, base, prev
+
+
+def _load_ghost(u, td, act, B, T, feature, name):
+    L = z3.Function(name, z3.IntSort(), z3.IntSort(), z3.RealSort())   # load of the current route after step t (0 carried over a depot visit)
+
+    def unfold(b, t):
+        a = act.at(b, t)
+        return L(b, zint(t) + 1) == ite(a == 0, zreal(0), L(b, zint(t))) + td[feature].at(b, a)
+
+    base = u.forall((B,), lambda b: L(b, 0) == 0)
+    if u.mode == "conc":
+        base = AND(base, u.forall((B, T), lambda b, t: unfold(b, t)))
+    return L, unfold, base
+
+
+@unit("mtvrp.check.sound", file=MTV, func="MTVRPEnv.check_solution_validity", props=("C06",))
+def _(u):
+    B, N, T = u.dims("B N T")
+    u.requires(T >= N)
+    td = u.td(B, locs=((B, N + 1, 2), "f"), time_windows=((B, N + 1, 2), "f"), service_time=((B, N + 1), "f"),
+              demand_linehaul=((B, N + 1), "f"), demand_backhaul=((B, N + 1), "f"), vehicle_capacity=((B, 1), "f"),
+              distance_limit=((B, 1), "f"), open_route=((B, 1), "b"))
+    act = u.tensor("actions", (B, T), "i")
+    u.requires(u.forall((B, T), lambda b, t: AND(act.at(b, t) >= 0, act.at(b, t) <= N)))
+    start, leave, rlen, rlen0, unfold, base, prev = _mtvrp_ghost(u, td, act, B, N, T)
+    Ll, unfold_l, base_l = _load_ghost(u, td, act, B, T, "demand_linehaul", "mt_load_linehaul")
+    Lb, unfold_b, base_b = _load_ghost(u, td, act, B, T, "demand_backhaul", "mt_load_backhaul")
+    u.requires(AND(base, base_l, base_b))
+    cap = lambda b: td["vehicle_capacity"].at(b, 0)
+
+    def inv_route(env, i):
+        ct, cn, cl = env["curr_time"], env["curr_node"], env["curr_length"]
+        return [("curr_time-is-departure-time", u.forall((B,), lambda b: ct.at(b) == leave(b, zint(i)))),
+                ("curr_node-is-previous-node", u.forall((B,), lambda b: cn.at(b) == prev(b, i))),
+                ("curr_length-is-carried-route-length", u.forall((B,), lambda b: cl.at(b) == rlen0(b, zint(i)))),
+                ("earlier-deadlines-held", u.forall((B, (0, zint(i))), lambda b, t: start(b, t) <= td["time_windows"].at(b, act.at(b, t), 1))),
+                ("earlier-lengths-within-limit", u.forall((B, (0, zint(i))), lambda b, t: rlen(b, t) <= td["distance_limit"].at(b, 0)))]
+
+    u.loop(MTV, "MTVRPEnv.check_solution_validity", 0,
+           LoopInvariant(inv_route, name="route-loop", tags=("C06",), facts=lambda env, i: [u.forall((B,), lambda b: unfold(b, i))]))
+
+    def inv_load(L, unf):
+        def inv(env, i):
+            uc = env["used_cap"]
+            return [("used_cap-is-route-load", u.forall((B,), lambda b: uc.at(b) == L(b, zint(i)))),
+                    ("earlier-loads-within-capacity", u.forall((B, (1, zint(i) + 1)), lambda b, t: L(b, t) <= cap(b)))]
+        return inv
+
+    for ordinal, (L, unf, nm) in enumerate(((Ll, unfold_l, "linehaul"), (Lb, unfold_b, "backhaul")), start=1):
+        u.loop(MTV, "MTVRPEnv.check_solution_validity", ordinal,   # the loops of the nested _check_c1 are numbered with the enclosing function, in execution order
+               LoopInvariant(inv_load(L, unf), name=f"{nm}-loop", tags=("C06",), facts=lambda env, i, unf=unf: [u.forall((B,), lambda b: unf(b, i))]))
+    with capture_sort(after=lambda r: sort_input_bridge(u, r, B, T)) as cs:
+        u.run(MTV, "MTVRPEnv.check_solution_validity", td, act, asserts="record")
+    b = u.idx((B,), "b")
+    t = u.idx((T,), "t")
+    t1 = u.idx(((1, T + 1),), "t1")
+    u.prove("check.sound.service-starts-within-window", start(b, t) <= td["time_windows"].at(b, act.at(b, t), 1), tags=("C06",))
+    u.prove("check.sound.route-length-within-limit", rlen(b, t) <= td["distance_limit"].at(b, 0), tags=("C06",))
+    u.prove("check.sound.linehaul-load-within-capacity", Ll(b, t1) <= cap(b), tags=("C06",))
+    u.prove("check.sound.backhaul-load-within-capacity", Lb(b, t1) <= cap(b), tags=("C06",))
+    u.canary("check.sound.route-length-strictly-below-limit", rlen(b, t) < td["distance_limit"].at(b, 0))
